@@ -62,4 +62,30 @@ def trimLeft (p : Char → Bool) : Str → Str
 
 def trimRight (p : Char → Bool) (s : Str) : Str := (trimLeft p s.reverse).reverse
 
+/-! Strings are byte strings (`Char`s below 256).  What follows is the one
+place where the version libraries decode UTF-8: go-rpm-version's
+`strings.TrimLeftFunc(epoch, unicode.IsSpace)`. -/
+
+/-- `strings.TrimLeftFunc(s, unicode.IsSpace)` on the UTF-8 bytes of `s`:
+    the ASCII white space, U+0085, U+00A0, U+1680, U+2000–U+200A, U+2028,
+    U+2029, U+202F, U+205F, U+3000 in their (shortest, hence valid) encodings.
+    Any other byte sequence — including an invalid or overlong one, which
+    decodes to U+FFFD — stops the trimming. -/
+def trimLeftSpace : Str → Str
+  | [] => []
+  | c :: cs =>
+    if isSpace c then trimLeftSpace cs
+    else
+      match c.toNat, cs with
+      | 0xC2, d :: rest =>
+        if d.toNat = 0x85 || d.toNat = 0xA0 then trimLeftSpace rest else c :: cs
+      | 0xE1, d :: e :: rest =>
+        if d.toNat = 0x9A && e.toNat = 0x80 then trimLeftSpace rest else c :: cs
+      | 0xE2, d :: e :: rest =>
+        if (d.toNat = 0x80 && ((decide (0x80 ≤ e.toNat) && decide (e.toNat ≤ 0x8A)) || e.toNat = 0xA8 || e.toNat = 0xA9 || e.toNat = 0xAF))
+            || (d.toNat = 0x81 && e.toNat = 0x9F) then trimLeftSpace rest else c :: cs
+      | 0xE3, d :: e :: rest =>
+        if d.toNat = 0x80 && e.toNat = 0x80 then trimLeftSpace rest else c :: cs
+      | _, _ => c :: cs
+
 end ClairModel.VerCommon
